@@ -37,6 +37,14 @@ not_applicable = [
 ]
 # properties whose engines are not built yet are listed here with the reason until their check exists
 pending = {
+ "C09": "applicable (gwsim engine, DESIGN.md section 4) - check not built yet in this revision",
+ "C10": "applicable (provsim manifest harness) - check not built yet in this revision",
+ "C11": "applicable (kubesim engine) - check not built yet in this revision",
+ "C12": "applicable (provsim) - check not built yet in this revision",
+ "C13": "applicable (provsim) - check not built yet in this revision",
+ "C14": "applicable (provsim) - check not built yet in this revision",
+ "C15": "applicable (provsim) - check not built yet in this revision",
+ "C20": "applicable (provsim) - check not built yet in this revision",
 }
 
 def main():
